@@ -44,6 +44,22 @@ Definition set_corr (b : bool) (f : flags) := mkFlags (f_pred f) (f_inner f) (f_
 Definition init (have : bool) : flags :=
   mkFlags false false false (if have then Some false else None) false.
 
+(* How the user hands an exogenous model to a filter.  StateModel::add_exogenous_model
+   attaches it to the state model (the only place the skip commands and propagate look at).
+   The two-argument constructor DrawParticles(state_model, exogenous_model) (DrawParticles.cpp:21-24)
+   only stores it in a member nothing reads: the state model stays without exogenous model. *)
+Inductive assembly := ViaStateModel (have : bool) | ViaDrawParticlesCtor.
+Definition init_of (a : assembly) : flags :=
+  match a with
+  | ViaStateModel have => init have
+  | ViaDrawParticlesCtor => init false
+  end.
+Definition exo_supplied (a : assembly) : bool :=
+  match a with
+  | ViaStateModel have => have
+  | ViaDrawParticlesCtor => true
+  end.
+
 (* sequencing of calls that may throw *)
 Definition bind (x : res * flags) (k : bool -> flags -> res * flags) : res * flags :=
   match fst x with
